@@ -36,6 +36,19 @@ def load_known():
         return json.load(f)["findings"]
 
 
+def _selfcheck(pid):
+    import subprocess
+    env = dict(os.environ, SA_NO_SELFCHECK="1")
+    env.pop("SA_EVIDENCE_DIR", None)
+    p = subprocess.run([sys.executable, os.path.join(VERIF, "selftest", "run_selftest.py"), "--props", pid, "--no-write"], capture_output=True, text=True, env=env)
+    lines = [l for l in p.stdout.splitlines() if l.strip()]
+    failed = [l.split()[2] + ": " + " ".join(l.split()[3:])[:160] for l in lines if l.startswith("FAIL")]
+    na = [l.split()[2] for l in lines if l.startswith("not-applicable")]
+    ok_b = sum(1 for l in lines if l.startswith("ok") and " breaking " in l)
+    ok_n = sum(1 for l in lines if l.startswith("ok") and " neutral " in l)
+    return {"breaking_variants_fired": ok_b, "neutral_variants_silent": ok_n, "not_applicable": na, "failed": failed, "summary": lines[-1] if lines else ""}
+
+
 def run_property(spec, tier="quick"):
     """spec: dict(id, title, rules=[callable(prog, report, tier)], floors={rule: min obligations}, explanation, assumptions)"""
     t0 = time.time()
@@ -102,6 +115,19 @@ def run_property(spec, tier="quick"):
         if n_viol:
             status = 1
 
+    selfcheck = None
+    if tier == "thorough" and status == 0 and not os.environ.get("SA_NO_SELFCHECK"):
+        # thorough tier: the rules of this property are additionally run against the variant catalogue computed from the
+        # current source (one instance of a rule broken -> must fire; accepted-idiom refactor -> must stay silent)
+        try:
+            selfcheck = _selfcheck(pid)
+        except Exception:
+            selfcheck = {"error": traceback.format_exc()}
+        if selfcheck.get("failed") and not n_viol:
+            status, err = 2, "ANALYSIS-ERROR property=%s the checker no longer meets its both-ways expectations on %d variant(s): %s" % (
+                pid, len(selfcheck["failed"]), "; ".join(selfcheck["failed"])[:600])
+
+
     obligations = len(report.obligations)
     discharged = sum(1 for o in report.obligations if o["verdict"] in ("holds", "accepted"))
     by_rule = {}
@@ -150,6 +176,8 @@ def run_property(spec, tier="quick"):
         "wall_s": round(time.time() - t0, 3),
         "violations": n_viol,
     }
+    if selfcheck is not None:
+        ev["coverage"]["variant_selfcheck"] = selfcheck
     if status == 2:
         ev["coverage"]["analysis_error"] = err
     with open(evidence_path, "w") as fh:
